@@ -121,10 +121,13 @@ def run_harness(stage, meta, h, tier_timeout_scale=1.0):
         return r
     r["instrument_s"] = round(time.time() - t0, 2)
     unwind = md["attributes"]["unwind_value"]
+    uws = resolve_unwindset(binary, h.unwindset)
+    r["unwindset"] = uws
     out = os.path.join(wd, "res.json")
     timeout = h.timeout * tier_timeout_scale
-    rc, _, el, st = run(cbmc_cmd(binary, unwind, h.unwindset), timeout=timeout, mem_gb=h.mem_gb, stdout_path=out)
+    rc, _, el, st = run(cbmc_cmd(binary, unwind, uws), timeout=timeout, mem_gb=h.mem_gb, stdout_path=out)
     r["cbmc_s"] = round(el, 2)
+    r["rss_mb"] = run.last_rss.get(threading.get_ident(), 0)
     if st == "timeout":
         r.update(verdict="inconclusive", reasons=["cbmc timed out after %ds" % timeout])
         return r
@@ -152,7 +155,7 @@ def counterexample(stage, h, r, fail):
     """Re-run CBMC on the single failing property with --trace and read the inputs."""
     wd = os.path.join(stage.work, h.name)
     out = os.path.join(wd, "trace-%s.json" % hashlib.md5(fail["name"].encode()).hexdigest()[:8])
-    rc, _, el, st = run(cbmc_cmd(r["binary"], r["unwind_value"], h.unwindset,
+    rc, _, el, st = run(cbmc_cmd(r["binary"], r["unwind_value"], r.get("unwindset"),
                                  ["--property", fail["name"], "--trace"]),
                         timeout=h.timeout * 2, mem_gb=h.mem_gb, stdout_path=out)
     if st == "timeout":
@@ -249,7 +252,7 @@ def run_property(prop, spec, tier, seed, only=None):
             r = results[h.name]
             v = r["verdict"]
             e = {k: r.get(k) for k in ("harness", "kind", "encodes", "bound", "unwind", "cuts", "stubs",
-                                       "cut_info", "stats", "checked", "covers", "cbmc_s", "instrument_s",
+                                       "cut_info", "stats", "checked", "covers", "cbmc_s", "rss_mb", "instrument_s", "unwindset",
                                        "finding")}
             e["verdict"] = v
             msg = ""
@@ -304,7 +307,7 @@ def run_property(prop, spec, tier, seed, only=None):
                     msg = "solver counterexample did not reproduce natively: " + json.dumps(outcomes)[:600]
             if h.kind == "finding" and e["verdict"] == "pass":
                 e["note"] = "finding %s no longer reproduces (obligation discharged)" % h.finding
-            log("[%s] %-34s %-26s cbmc=%ss %s" % (prop, h.name, e["verdict"], r.get("cbmc_s"), msg))
+            log("[%s] %-34s %-26s cbmc=%ss rss=%sMB %s" % (prop, h.name, e["verdict"], r.get("cbmc_s"), r.get("rss_mb"), msg))
             ev_h.append(e)
         ev = base_evidence(prop, tier, seed, t0, ev_h, spec)
         ev["codegen_s"] = round(stage.codegen_s, 1)
